@@ -149,6 +149,12 @@ fn check_vector(o: &mut CaseOut, pred: &[Option<usize>], starts: &[usize], targe
     let how = pred.iter().map(|p| p.map_or(1, |v| v + 2)).sum::<usize>();
     let tree = build_tree(pred, how);
     o.check(tree.pred == pred, "tree-construction", || format!("{:?} vs {pred:?}", tree.pred));
+    if how % 4 == 1 {
+        // the other public views of the vector: Index, IntoIterator (owned and borrowed)
+        let by_index: Vec<Option<usize>> = (0..n).map(|v| tree[v]).collect();
+        let owned: Vec<Option<usize>> = tree.clone().into_iter().collect();
+        o.check(by_index == pred && owned == pred, "tree-views-disagree", || format!("index {by_index:?} into_iter {owned:?} vs {pred:?}"));
+    }
     if how % 64 == 3 {
         reentrant(o, pred);
         if crate::ctx::stop_requested() {
